@@ -239,9 +239,9 @@ def gen(rng, tier):
     for n in range(k + 1):
         for tup in itertools.product(small, repeat=n):
             cases.append({"kind": "quote", "s": "".join(tup)})
-    for _ in range(300 if tier == "quick" else 5000):
+    for _ in range(300 if tier == "quick" else 2000):
         cases.append({"kind": "quote", "s": "".join(rng.choice(QCH) for _ in range(rng.randrange(0, 12)))})
-    for _ in range(500 if tier == "quick" else 8000):
+    for _ in range(500 if tier == "quick" else 2500):
         typ = rng.choice(["PRIVMSG", "NOTICE"])
         user = rng.choice(["u", "#chan", "nick", "#é", "&x"])
         minimum = len("%s %s :" % (typ, user)) + 2
@@ -257,7 +257,7 @@ def gen(rng, tier):
             case["nicklen"] = rng.choice([1, 9, 30, 200, 330])
         cases.append(case)
     # plain ASCII messages (the class of the _partial theorem) with widths around word boundaries
-    for _ in range(150 if tier == "quick" else 2000):
+    for _ in range(150 if tier == "quick" else 600):
         typ, user = "PRIVMSG", rng.choice(["u", "#c"])
         minimum = len("%s %s :" % (typ, user)) + 2
         words = [rng.choice(["ab", "cde", "f", "ghij-kl", "m" * rng.randrange(1, 25)]) for _ in range(rng.randrange(1, 10))]
